@@ -136,32 +136,34 @@ OnlyThatRule(b, s, l, q) ==
 
 Init == B \in BFamily /\ st = Locked(DefaultSession) /\ ls = 0 /\ verdict = "ok" /\ e4 = TRUE
 
-Fire(rule) ==
-  \E i \in 1..Len(ReqSeq) : \E o \in Outcomes(B, st, ls, ReqSeq[i]) :
-    /\ o.rule = rule
-    /\ st' = o.st /\ ls' = o.ls /\ UNCHANGED B
-    /\ verdict' = StepVerdictE(VM, B, st, [q |-> Q(ReqSeq[i]), pre |-> IF o.pre = Raise THEN NoReply ELSE o.pre,
-                                           vis |-> o.vis, raised |-> IF o.pre = Raise THEN "Exception" ELSE "",
-                                           after |-> o.st])
-    /\ e4' = IF CheckE4 THEN OnlyThatRule(B, st, ls, ReqSeq[i]) ELSE TRUE
-    /\ Export => PrintT(<<"T", {RuleIdx[r] : r \in B}, st.session, st.level, ls, i,
-                          Code(o.pre), Code(o.vis)[1], o.st.session, o.st.level, o.ls>>)
+Do(i, o) ==
+  /\ st' = o.st /\ ls' = o.ls /\ UNCHANGED B
+  /\ verdict' = StepVerdictE(VM, B, st, [q |-> Q(ReqSeq[i]), pre |-> IF o.pre = Raise THEN NoReply ELSE o.pre,
+                                         vis |-> o.vis, raised |-> IF o.pre = Raise THEN "Exception" ELSE "",
+                                         after |-> o.st])
+  /\ e4' = IF CheckE4 THEN OnlyThatRule(B, st, ls, ReqSeq[i]) ELSE TRUE
+  /\ Export => PrintT(<<"T", {RuleIdx[r] : r \in B}, st.session, st.level, ls, i,
+                        Code(o.pre), Code(o.vis)[1], o.st.session, o.st.level, o.ls>>)
 
-Rule_sns      == Fire("sns")
-Rule_msf      == Fire("msf")
-Rule_sfns     == Fire("sfns")
-Rule_fmt      == Fire("fmt")
-Rule_sc       == Fire("sc")
-Rule_sr       == Fire("sr")
-Rule_tp       == Fire("tp")
-Rule_specific == Fire("specific")
-Rule_none     == Fire("none")
-Silent        == Fire("silent")
-Raises        == Fire("raise")
+\* one action per rule that produces the answer (so that TLC's coverage names the rules that
+\* were exercised); Step is their union with the request loop evaluated once
+Step == \E i \in 1..Len(ReqSeq) : \E o \in Outcomes(B, st, ls, ReqSeq[i]) : Do(i, o)
+Rule_sns == \E i \in 1..Len(ReqSeq) : \E o \in Outcomes(B, st, ls, ReqSeq[i]) : o.rule = "sns" /\ Do(i, o)
+Rule_msf == \E i \in 1..Len(ReqSeq) : \E o \in Outcomes(B, st, ls, ReqSeq[i]) : o.rule = "msf" /\ Do(i, o)
+Rule_sfns == \E i \in 1..Len(ReqSeq) : \E o \in Outcomes(B, st, ls, ReqSeq[i]) : o.rule = "sfns" /\ Do(i, o)
+Rule_fmt == \E i \in 1..Len(ReqSeq) : \E o \in Outcomes(B, st, ls, ReqSeq[i]) : o.rule = "fmt" /\ Do(i, o)
+Rule_sc == \E i \in 1..Len(ReqSeq) : \E o \in Outcomes(B, st, ls, ReqSeq[i]) : o.rule = "sc" /\ Do(i, o)
+Rule_sr == \E i \in 1..Len(ReqSeq) : \E o \in Outcomes(B, st, ls, ReqSeq[i]) : o.rule = "sr" /\ Do(i, o)
+Rule_tp == \E i \in 1..Len(ReqSeq) : \E o \in Outcomes(B, st, ls, ReqSeq[i]) : o.rule = "tp" /\ Do(i, o)
+Rule_specific == \E i \in 1..Len(ReqSeq) : \E o \in Outcomes(B, st, ls, ReqSeq[i]) : o.rule = "specific" /\ Do(i, o)
+Rule_none == \E i \in 1..Len(ReqSeq) : \E o \in Outcomes(B, st, ls, ReqSeq[i]) : o.rule = "none" /\ Do(i, o)
+Silent == \E i \in 1..Len(ReqSeq) : \E o \in Outcomes(B, st, ls, ReqSeq[i]) : o.rule = "silent" /\ Do(i, o)
+Raises == \E i \in 1..Len(ReqSeq) : \E o \in Outcomes(B, st, ls, ReqSeq[i]) : o.rule = "raise" /\ Do(i, o)
 
 Next == \/ Rule_sns \/ Rule_msf \/ Rule_sfns \/ Rule_fmt \/ Rule_sc \/ Rule_sr \/ Rule_tp
         \/ Rule_specific \/ Rule_none \/ Silent \/ Raises
 Spec == Init /\ [][Next]_vars
+SpecFast == Init /\ [][Step]_vars      \* same behaviours, the request loop evaluated once per state
 
 ----------------------------------------------------------------------------
 (* -------------------- properties (C13 E1..E4, C14 A1/A2) ------------------ *)
